@@ -315,6 +315,8 @@ macro_rules! fit_stats_impl {
 
 trait FinishOf<T: Sc> {
     fn fin(&self, residuals: Option<Vec<T>>) -> Finish<T>;
+    /// without best_fit (which evaluates the model once more)
+    fn fin_light(&self, residuals: Option<Vec<T>>) -> Finish<T>;
 }
 impl<M, T> FinishOf<T> for FitResult<M, false>
 where
@@ -330,6 +332,16 @@ where
             best_fit: self
                 .best_fit()
                 .map(|c| DMatrix::from_fn(c.nrows(), c.ncols(), |i, j| c[(i, j)])),
+            residuals,
+        }
+    }
+    fn fin_light(&self, residuals: Option<Vec<T>>) -> Finish<T> {
+        Finish {
+            params: self.nonlinear_parameters().as_slice().to_vec(),
+            coeffs: self
+                .linear_coefficients()
+                .map(|c| DMatrix::from_fn(c.nrows(), c.ncols(), |i, j| c[(i, j)])),
+            best_fit: None,
             residuals,
         }
     }
@@ -351,6 +363,16 @@ where
             residuals,
         }
     }
+    fn fin_light(&self, residuals: Option<Vec<T>>) -> Finish<T> {
+        Finish {
+            params: self.nonlinear_parameters().as_slice().to_vec(),
+            coeffs: self
+                .linear_coefficients()
+                .map(|c| DMatrix::from_fn(c.nrows(), c.ncols(), |i, j| c[(i, j)])),
+            best_fit: None,
+            residuals,
+        }
+    }
 }
 fn finish_of<T: Sc, F: FinishOf<T>>(fr: &F, residuals: Option<Vec<T>>) -> Finish<T> {
     fr.fin(residuals)
@@ -364,7 +386,8 @@ where
     LevMarProblem<M, MRHS, false>: Prob<T>,
 {
     let residuals = LeastSquaresProblem::residuals(&fr.problem).map(|v| v.as_slice().to_vec());
-    let fin = fr.fin(residuals);
+    // best_fit is deliberately not computed here: it would evaluate the model once more
+    let fin = fr.fin_light(residuals);
     FitOut {
         ok,
         was_successful: fr.was_successful(),
